@@ -123,22 +123,47 @@ fn ip_id(ip: IpAddr) -> u32 {
     }
 }
 
-fn make_slots(kinds: &[&str]) -> Vec<Slot> {
+/// no TIME_WAIT leftovers: every socket of the harness is closed with an RST (SO_LINGER 0), so that thousands of
+/// cases (and other checks running on the same machine) never exhaust the ephemeral port range
+fn no_linger<S: std::os::fd::AsFd>(s: &S) {
+    let _ = socket2::SockRef::from(s).set_linger(Some(std::time::Duration::ZERO));
+}
+
+/// bind with retries: a transient lack of free ports (other checks running) is an environment problem, not a verdict
+fn retry<T>(what: &str, mut f: impl FnMut() -> io::Result<T>) -> Result<T, String> {
+    let mut last = String::new();
+    for _ in 0..100 {
+        match f() {
+            Ok(v) => return Ok(v),
+            Err(e) => last = e.to_string(),
+        }
+        std::thread::sleep(std::time::Duration::from_millis(50));
+    }
+    Err(format!("ENV-FAIL {what}: {last}"))
+}
+
+fn make_slots(kinds: &[&str]) -> Result<Vec<Slot>, String> {
     let mut slots: Vec<Slot> = Vec::new();
     for k in kinds {
         loop {
             let s = match *k {
                 "L4" | "L6" => {
-                    let l = std::net::TcpListener::bind(SocketAddr::new(if *k == "L4" { V4 } else { V6 }, 0)).expect("bind listener");
+                    let l = retry("bind listener", || std::net::TcpListener::bind(SocketAddr::new(if *k == "L4" { V4 } else { V6 }, 0)))?;
                     l.set_nonblocking(true).unwrap();
                     Slot { addr: l.local_addr().unwrap(), sock: SlotSock::Live(l) }
                 }
                 "R4" | "R6" => {
-                    let s = if *k == "R4" { tokio::net::TcpSocket::new_v4() } else { tokio::net::TcpSocket::new_v6() }.unwrap();
-                    s.bind(SocketAddr::new(if *k == "R4" { V4 } else { V6 }, 0)).expect("bind");
+                    let s = retry("bind socket", || {
+                        let s = if *k == "R4" { tokio::net::TcpSocket::new_v4() } else { tokio::net::TcpSocket::new_v6() }?;
+                        s.bind(SocketAddr::new(if *k == "R4" { V4 } else { V6 }, 0))?;
+                        Ok(s)
+                    })?;
                     Slot { addr: s.local_addr().unwrap(), sock: SlotSock::Bound(s) }
                 }
-                "U4" => Slot { addr: SocketAddr::new(BCAST, 9), sock: SlotSock::Nothing },
+                // unreachable whatever the port; distinct ports keep `@k` unambiguous
+                "U4" => Slot { addr: SocketAddr::new(BCAST, 9 + slots.len() as u16), sock: SlotSock::Nothing },
+                // 127.0.0.1:0 — what a request without any port dials (ConnectInfo's default port is 0); always refused
+                "Z4" => Slot { addr: SocketAddr::new(V4, 0), sock: SlotSock::Nothing },
                 _ => panic!("bad slot kind {k}"),
             };
             // port numbers must be pairwise distinct so that `@k` is unambiguous
@@ -148,7 +173,7 @@ fn make_slots(kinds: &[&str]) -> Vec<Slot> {
             }
         }
     }
-    slots
+    Ok(slots)
 }
 
 fn subst_ports(text: &str, slots: &[Slot]) -> String {
@@ -199,20 +224,23 @@ fn errno(e: &io::Error) -> String {
 
 /// accept everything queued on a live listener up to and including a sentinel connection made
 /// now; returns the number of connections that were queued before the sentinel (FIFO queue).
-fn drain(l: &std::net::TcpListener) -> usize {
-    let sentinel = std::net::TcpStream::connect(l.local_addr().unwrap()).expect("sentinel connect");
+fn drain(l: &std::net::TcpListener) -> Result<usize, String> {
+    let addr = l.local_addr().unwrap();
+    let sentinel = retry("sentinel connect", || std::net::TcpStream::connect(addr))?;
+    no_linger(&sentinel);
     let me = sentinel.local_addr().unwrap();
     l.set_nonblocking(false).unwrap();
     let mut n = 0;
     loop {
-        let (_s, peer) = l.accept().expect("accept");
+        let (s, peer) = l.accept().map_err(|e| format!("ENV-FAIL accept: {e}"))?;
+        no_linger(&s);
         if peer == me {
             break;
         }
         n += 1;
     }
     l.set_nonblocking(true).unwrap();
-    n
+    Ok(n)
 }
 
 struct ScriptedResolver {
@@ -286,8 +314,16 @@ pub async fn c19conn(line: &str) -> String {
     let res = field(line, "res").unwrap_or("err");
     let svc = field(line, "svc").unwrap_or("c");
     let kinds: Vec<&str> = field(line, "slots").unwrap_or("").split(',').filter(|s| !s.is_empty()).collect();
-    let slots = make_slots(&kinds);
+    let slots = match make_slots(&kinds) {
+        Ok(s) => s,
+        Err(e) => return e,
+    };
     let host = subst_ports(host_t, &slots);
+    let want_local = ops.split('/').rev().find_map(|o| match o {
+        "l4" => Some(V4),
+        "l6" => Some(V6),
+        _ => None,
+    });
 
     // ---- oracle answers, recorded from the real environment, independent of actix-tls
     let mut oracle = Vec::new();
@@ -296,14 +332,21 @@ pub async fn c19conn(line: &str) -> String {
             oracle.push(format!("lit:{}={}", hex(cand.as_bytes()), ip_id(ip)));
         }
     }
+    // the connect oracle is asked with the local bind address this case uses (the last set_local_addr)
+    let tag = match want_local {
+        None => "-",
+        Some(ip) if ip == V4 => "4",
+        Some(_) => "6",
+    };
     for (k, s) in slots.iter().enumerate() {
-        for (tag, local) in [("-", None), ("4", Some(V4)), ("6", Some(V6))] {
-            let out = match probe(s.addr, local).await {
-                Ok(_) => "ok".to_string(),
-                Err(e) => errno(&e),
-            };
-            oracle.push(format!("dial:{k}/{tag}={out}"));
-        }
+        let out = match probe(s.addr, want_local).await {
+            Ok(st) => {
+                no_linger(&st);
+                "ok".to_string()
+            }
+            Err(e) => errno(&e),
+        };
+        oracle.push(format!("dial:{k}/{tag}={out}"));
     }
     if res == "d" {
         let ids: Vec<String> = match ("localhost", 0u16).to_socket_addrs() {
@@ -314,7 +357,9 @@ pub async fn c19conn(line: &str) -> String {
     }
     for s in &slots {
         if let SlotSock::Live(l) = &s.sock {
-            drain(l);
+            if let Err(e) = drain(l) {
+                return e;
+            }
         }
     }
 
@@ -330,14 +375,9 @@ pub async fn c19conn(line: &str) -> String {
         Resolver::custom(ScriptedResolver { log: log.clone(), answer })
     };
     let info = build_info(host.clone(), ctor, ops, &slots);
-    let want_local = ops.split('/').rev().find_map(|o| match o {
-        "l4" => Some(V4),
-        "l6" => Some(V6),
-        _ => None,
-    });
-
     let show_conn = |r: Result<Connection<String, TcpStream>, ConnectError>| match r {
         Ok(conn) => {
+            no_linger(conn.io_ref());
             let peer = conn.io_ref().peer_addr().map(|a| show_addr(a, &slots)).unwrap_or_else(|_| "?".into());
             let bound = match want_local {
                 Some(ip) => (conn.io_ref().local_addr().map(|a| a.ip() == ip).unwrap_or(false)) as u8,
@@ -371,7 +411,10 @@ pub async fn c19conn(line: &str) -> String {
     let mut acc = Vec::new();
     for (k, s) in slots.iter().enumerate() {
         if let SlotSock::Live(l) = &s.sock {
-            acc.push(format!("{}:{}", k, drain(l)));
+            match drain(l) {
+                Ok(n) => acc.push(format!("{}:{}", k, n)),
+                Err(e) => return e,
+            }
         }
     }
     let logs: Vec<String> = log.borrow().iter().map(|(h, p)| format!("{}:{}", hex(h.as_bytes()), show_port(*p, &slots))).collect();
@@ -491,13 +534,17 @@ pub async fn c19tls(line: &str, pki: &Pki) -> String {
                     let addr = l.local_addr().unwrap();
                     let srv = async {
                         if let Ok((s, _)) = l.accept().await {
+                            no_linger(&s);
                             tls_server(s, pki, id, sbe).await;
                         }
                     };
                     let cli = async {
                         let info = ConnectInfo::with_addr(host.clone(), addr);
                         match Connector::default().service().call(info).await {
-                            Ok(conn) => tls_client(be, conn, pki, payload.clone()).await,
+                            Ok(conn) => {
+                                no_linger(conn.io_ref());
+                                tls_client(be, conn, pki, payload.clone()).await
+                            }
                             Err(e) => format!("TCP {}", show_err(&e)),
                         }
                     };
